@@ -26,7 +26,7 @@ CHECK = {
     "C13": dict(
         bin="run_close", build="inpkg", pkg="contractcourt", level="fault_enumeration",
         run_args=["-test.run=^TestVerifRun$", "-test.timeout=0"],
-        quick=dict(runs=20000, wall=80), thorough=dict(runs=150000, wall=1500),
+        quick=dict(runs=12000, wall=80), thorough=dict(runs=150000, wall=1500),
         rule="one evaluation = one seeded close scenario (C12 model: 0-7 HTLCs on the local / remote / remote-pending commitments, anchors or legacy, broadcast deltas, heights; pre-close "
              "stimuli: blocks, ContractUpdates, preimage learned, user force close; close trigger local / remote / remote-pending / breach / coop) with a chain script drawn at the close "
              "(counterparty preimage claims and timeouts per HTLC output, confirmation delays per outpoint, preimages turning up, breach justice) run (1) uninterrupted to its terminal "
@@ -62,9 +62,8 @@ TEXT = {
                            "txid); per offered HTLC the same de-duplicated upstream resolution (fail / settle), never both unless the reference already did; same final on-chain outcomes of "
                            "received HTLCs; nothing the reference published or offered to the sweeper is missing; a two-stage HTLC claim that was seen in stage two at a quiescent point is not "
                            "sent back to stage one by a later crash (first-stage input offered again / handed to the nursery again).",
-                level_note="Trusted: synctest quiescence, the simulator's chain / sweeper / nursery model, bbolt atomicity. Immediate restart only (no downtime). Known findings (open, see "
-                           "known_findings.json): C13-F1 a resolver checkpointed as resolved but not yet deleted is never deleted after a restart (channel stays pending-close forever); C13-F2 a "
-                           "restart in StateContractClosed re-derives the chain actions with chainTrigger and drops / never launches the HTLC resolvers; C13-F3 a restart between "
+                level_note="Trusted: synctest quiescence, the simulator's chain / sweeper / nursery model, bbolt atomicity. Immediate restart only (no downtime). Two genuine defects found by this check were fixed in lnd (7215c77 restart in StateContractClosed, ac70a5d restored-resolved "
+                           "resolver never removed; regression replays under regress/). Known finding (open): C13-F3 a restart between "
                            "InsertConfirmedCommitSet and MarkChannelClosed makes the arbitrator force-close on its own and lose a dust fail-back."),
 }
 
